@@ -31,6 +31,13 @@ def run(c):
         c.cov["traces_validated_against_impl"] += n
         c.cov["evaluations"] += sum(1 for line in open(conc) if '"ev":"hop"' in line)
         c.notes.append("%d journeys over segments produced by concurrent beacon extension" % n)
+        # the limits of the path header: a segment of 64 AS entries (the 6-bit SegLen field holds 63, a path 64
+        # hop fields): whatever the combinator returns there must be sendable and accepted
+        lim = c.scratch + "/limit.ndjson"
+        c.run_driver(drv, ["-mode", "line", "-ns", "64", "-out", lim])
+        _dp.validate(c, "C02", lim)
+        c.cov["traces_validated_against_impl"] += sum(1 for line in open(lim) if '"ev":"reset"' in line)
+        c.cov["evaluations"] += sum(1 for line in open(lim) if '"ev":"hop"' in line)
     _dp.coverage(c, trace, lambda r, evs: r["mode"] == "honest" and any(
         e["ev"] == "hop" and e["j"] == "req" for e in evs),
         "every path returned by the real combinator (findAllIdentical) for every ordered AS pair of "
